@@ -340,3 +340,17 @@ def s2_trace_velocity():
     if bad:
         return f"tracer self-check failed for {bad} (printed expression != what the Python function computes)"
     return None
+
+
+def s2_trace_tensors():
+    """PRE_LEAN hook of C10/C11/C12: re-trace the straight-line kernels of tensors.py (index conversions, Voigt vector/matrix maps,
+    voigt_decompose, rotate, the four symmetry projectors) on symbolic arrays and rewrite lean/Generated/TracedTensors.lean
+    (bridge theorems: lean/Bridge/Tensors.lean, lean/Bridge/TensorsRotate.lean)."""
+    from .trace import tracer
+
+    traced = tracer.trace_tensors()
+    tracer.emit_tensors(traced)
+    bad = tracer.selfcheck_tensors(traced, n=4)
+    if bad:
+        return f"tracer self-check failed for {bad} (printed expression != what the Python function computes)"
+    return None
